@@ -22,11 +22,14 @@ pub struct Step {
     /// compare this compilation with the fresh-process reference (otherwise it is only a predecessor)
     #[serde(default)]
     pub subject: bool,
+    /// seed the (thread-local) generator of the compiling thread first — the injected "unlucky draw"
+    #[serde(default)]
+    pub fastrand_seed: Option<u64>,
 }
 
 impl Step {
     pub fn plain(item: Item) -> Step {
-        Step { item, chunk: Chunking::NONE, plan: FaultPlan::default(), thread: false, subject: true }
+        Step { item, chunk: Chunking::NONE, plan: FaultPlan::default(), thread: false, subject: true, fastrand_seed: None }
     }
 }
 
@@ -37,6 +40,9 @@ pub struct StepResult {
 }
 
 pub fn compile_step(step: &Step) -> StepResult {
+    if let Some(s) = step.fastrand_seed {
+        fastrand::seed(s);
+    }
     let it = &step.item;
     let mock = it.files.iter().map(|(k, v)| (k.clone(), Rc::new(v.clone().into_bytes()))).collect();
     let o = run_job(&Job {
